@@ -29,7 +29,8 @@ def sh(cmd, cwd, env=None, timeout=1800):
 
 def main():
     seed = os.path.abspath(sys.argv[1])
-    confirm = "--no-confirm" not in sys.argv
+    refresh = "--refresh" in sys.argv      # re-score an already kept seed: only meta.json's `checks` is rewritten
+    confirm = "--no-confirm" not in sys.argv and not refresh
     keep = "--keep" in sys.argv
     sid = os.path.basename(seed.rstrip("/"))
     patch = os.path.join(seed, "patch.diff")
@@ -103,6 +104,9 @@ def main():
                                                      json.dumps(caught)))
         result["caught_by"] = caught
         result["caught_by_target_property"] = hit
+        if refresh:
+            meta["checks"] = {"caught_by": caught, "caught_by_target_property": hit}
+            json.dump(meta, open(os.path.join(seed, "meta.json"), "w"), indent=1)
         if keep and (not confirm or result.get("confirmed")):
             out_dir = os.path.join(VERIF, "seeded", sid)
             os.makedirs(out_dir, exist_ok=True)
